@@ -27,7 +27,7 @@ CONF = {
                 model=[("plain", 150, 1500), ("dag", 120, 1500), ("kinds3", 80, 1200), ("sync", 120, 1500),
                        ("ctx", 60, 600), ("faults", 100, 1200), ("everything", 120, 2000), ("lazyfail", 60, 600), ("ival", 80, 1000),
                        ("again", 150, 1500), ("nonasync", 80, 800), ("batchleaf", 100, 1000), ("basefaults", 100, 1000)],
-                monitor_only=[("cleanup", 250, 2500)],
+                monitor_only=[("cleanup", 250, 2500), ("nestself", 150, 1500)],
                 big=[("big", 25, 400), ("everything", 100, 2000)], enum=True),
     "C02": dict(prefixes=("C02.",), builds=("pure",),
                 model=[("faults", 500, 5000), ("lazyfail", 250, 2500), ("syncfaults", 250, 3000), ("ctxfaults", 200, 2000), ("basefaults", 300, 3000),
@@ -44,7 +44,7 @@ CONF = {
     "C05": dict(prefixes=("C05.",), builds=("pure",),
                 model=[("kinds3", 500, 5000), ("faults", 300, 3000), ("sync", 250, 2500), ("spawn", 200, 2000),
                        ("syncfaults", 150, 2000), ("throw", 250, 2500), ("ival", 300, 3000), ("overflowbatch", 250, 2500), ("cancel", 300, 3000), ("batchleaf", 250, 2500)],
-                monitor_only=[("nestflush", 500, 5000)],
+                monitor_only=[("nestflush", 500, 5000), ("nestself", 300, 3000)],
                 big=[("kinds3", 400, 4000), ("big", 40, 600)], enum=True),
     "C06": dict(prefixes=("C06.",), builds=("pure",),
                 model=[("ctx", 400, 4000), ("ctxsync", 300, 3000), ("ctxfaults", 300, 3000), ("nonasync", 300, 3000), ("nonasyncfaults", 400, 4000), ("kill", 400, 4000),
